@@ -297,3 +297,48 @@ func isKeyCompareCall(call *ssa.Call) bool {
 	b, ok := sig.Results().At(0).Type().Underlying().(*types.Basic)
 	return ok && b.Kind() == types.Int && ir.IsErrorType(sig.Results().At(1).Type())
 }
+
+// ---- KEYOPAQUE -----------------------------------------------------------------------------
+
+func init() {
+	Register(&Rule{ID: "KEYOPAQUE", Props: []string{"C01"}, Min: 1,
+		Doc: "the tree logic is parametric in the key and value types: outside the default comparator/layer functions no function type-asserts, type-switches on or converts a user key or value — they are only handed to the key order, the layer function, the marshalers, DeepEqual and formatting. " +
+			"This is what lets one argument cover every key and value type the property quantifies over.",
+		Run: runKEYOPAQUE})
+}
+
+func runKEYOPAQUE(c *Ctx) {
+	P := c.P
+	userParams := userValueParams(c)
+	exempt := map[*ssa.Function]bool{}
+	for _, name := range []string{"DefaultKeyCompare", "DefaultLayer"} {
+		if f := c.P.MastFunc(name); f != nil {
+			exempt[f] = true
+			for _, a := range allAnon(f) {
+				exempt[a] = true
+			}
+		}
+	}
+	n := 0
+	for _, fn := range P.Funcs {
+		if fn.Pkg.Pkg.Path() != ir.MastPath || exempt[fn] {
+			continue
+		}
+		for _, b := range fn.Blocks {
+			for _, ins := range b.Instrs {
+				ta, ok := ins.(*ssa.TypeAssert)
+				if !ok {
+					continue
+				}
+				k, w := provenance(ta.X, userParams, 0)
+				if k != provUser {
+					continue
+				}
+				n++
+				c.Violation(fn, P.InstrPos(ta), "type assertion on a user key/value ("+w+")",
+					"the tree treats keys and values as opaque; special-casing a dynamic type here makes behaviour depend on the key type outside the comparator and layer functions")
+			}
+		}
+	}
+	c.OK("-", "type assertions on user keys/values outside the default comparator/layer", fmt.Sprintf("%d found", n), false)
+}
